@@ -883,30 +883,60 @@ func (v Value) toReflectValue(typ reflect.Type) (reflect.Value, error) {
 		switch v.kind {
 		case valueObject:
 			obj := v.object()
+			var bridged reflect.Value
 			switch vl := obj.value.(type) {
 			case *goStructObject: // Struct
-				return reflect.ValueOf(vl.value.Interface()), nil
+				bridged = reflect.ValueOf(vl.value.Interface())
 			case *goMapObject: // Map
-				return reflect.ValueOf(vl.value.Interface()), nil
+				bridged = reflect.ValueOf(vl.value.Interface())
 			case *goArrayObject: // Array
-				return reflect.ValueOf(vl.value.Interface()), nil
+				bridged = reflect.ValueOf(vl.value.Interface())
 			case *goSliceObject: // Slice
-				return reflect.ValueOf(vl.value.Interface()), nil
+				bridged = reflect.ValueOf(vl.value.Interface())
+			}
+			if bridged.IsValid() {
+				if !bridged.Type().AssignableTo(typ) {
+					return reflect.Value{}, fmt.Errorf("TypeError: could not convert %v to reflect.Type: %v", bridged.Type(), typ)
+				}
+				return bridged, nil
 			}
 			exported := reflect.ValueOf(v.export())
+			if typ.Kind() == reflect.Array && exported.Kind() == reflect.Slice && exported.Len() != typ.Len() {
+				// Convert would truncate a longer slice and panic on a shorter one.
+				return reflect.Value{}, fmt.Errorf("RangeError: %d elements to %v", exported.Len(), typ)
+			}
 			if exported.Type().ConvertibleTo(typ) {
 				return exported.Convert(typ), nil
 			}
 			return reflect.Value{}, fmt.Errorf("TypeError: could not convert %v to reflect.Type: %v", exported, typ)
 		case valueEmpty, valueResult, valueReference:
 			// These are invalid, and should panic
+		case valueUndefined, valueNull:
+			switch kind {
+			case reflect.Interface, reflect.Slice, reflect.Map:
+				// nil; reflect.ValueOf(nil) would be the invalid Value, which
+				// panics in Set and DELETES the key in SetMapIndex.
+				return reflect.Zero(typ), nil
+			}
+			return reflect.Value{}, fmt.Errorf("TypeError: could not convert %v to reflect.Type: %v", v, typ)
 		default:
-			return reflect.ValueOf(v.value), nil
+			var rv reflect.Value
+			if v.kind == valueString {
+				rv = reflect.ValueOf(v.string()) // never the internal []uint16 form
+			} else {
+				rv = reflect.ValueOf(v.value)
+			}
+			if !rv.Type().AssignableTo(typ) {
+				return reflect.Value{}, fmt.Errorf("TypeError: could not convert %v to reflect.Type: %v", v, typ)
+			}
+			return rv, nil
 		}
 	}
 
-	// FIXME Should this end up as a TypeError?
-	panic(fmt.Errorf("invalid conversion of %v (%v) to reflect.Type: %v", v.kind, v, typ))
+	// Pointer, func, chan, ... element types: there is no conversion. Panic (TestReflect
+	// pins that), but with a JavaScript TypeError, so that a script storing into
+	// a []*int can catch it and Run returns it instead of a plain Go error escaping.
+	panic(newError(nil, "TypeError", 0, "invalid conversion of %v (%v) to reflect.Type: %v", v.kind, v, typ))
 }
 
 // panicStoreError turns a conversion failure of a store into a bridged Go
